@@ -252,7 +252,7 @@ fn plan(property: &str, tier: &str) -> Vec<(&'static str, usize)> {
         "C02" => {
             if quick {
                 vec![
-                    ("holes4", 10),
+                    ("holes4", 9),
                     ("holes4w", 6),
                     ("prefilled4c", 8),
                     ("prefilled4", 4),
